@@ -159,6 +159,16 @@ def handleSeries : List String → String
     match natBelow 100000 limit with
     | some l => runSeries l f temps ops
     | none => "bad-op"
+  -- the double-valued twins (RecordDouble / DoubleCounter): same tables, same keys
+  | "stored" :: limit :: f :: temps :: ops =>
+    match natBelow 100000 limit with
+    | some l => runSeries l f temps ops
+    | none => "bad-op"
+  | "sdkd" :: f :: temps :: ops => runSeries Gen.kAggregationCardinalityLimit f temps ops
+  -- an observable counter whose callback reports running totals: what a synchronous counter with the same additions gives
+  -- (only `recn` / `col` operations)
+  | "obs" :: temps :: ops =>
+    if (splitOps ops).any (fun o => o.head? == some "rec" || (o.head? == some "recn" && o.getLast? == some "0")) then "bad-op" else runSeries Gen.kAggregationCardinalityLimit "*" temps ops
   | "sdk" :: f :: temps :: ops => runSeries Gen.kAggregationCardinalityLimit f temps ops
   | "sdkg" :: f :: temps :: ops => runSeries Gen.kAggregationCardinalityLimit f temps ops
   | _ => "bad-op"
